@@ -18,7 +18,7 @@ Print Assumptions C13_pl_int.
 Theorem C13_pl_closed_forms : forall (erfR : R -> R) E0 g E1 E2,
   pl_call (RNum erfR) E1 E0 g = Rpower (E1 / E0) (- g)
   /\ pl_integral (RNum erfR) E0 1 E1 E2 = E0 * ln (E2 / E1)
-  /\ (g <> 1 -> pl_integral (RNum erfR) E0 g E1 E2
+  /\ (0 < E1 -> 0 < E2 -> g <> 1 -> pl_integral (RNum erfR) E0 g E1 E2
                  = Rpower E0 g / (1 - g) * (Rpower E2 (1 - g) - Rpower E1 (1 - g))).
 Proof.
   intros erfR E0 g E1 E2.
